@@ -25,7 +25,10 @@ func ZZC11(mode, script, varspec, metaSpec, flags string) {
 		zzvrt.Reach("skipped-parse-error")
 		return
 	}
-	meta := zzParseMeta(metaSpec)
+	var meta AccountsMetadata
+	if mode != "history" {
+		meta = zzParseMeta(metaSpec)
+	}
 	ctx := context.Background()
 	switch mode {
 	case "purity":
@@ -114,6 +117,24 @@ func ZZC11(mode, script, varspec, metaSpec, flags string) {
 			zzSameOutcome(outs[0], outs[1], "C11:flag-changes-only-its-feature")
 		}
 		zzvrt.Reach("c11-flags-end")
+
+	case "history":
+		// the outcome does not depend on what the process ran before: the same run before and
+		// after a run of another script (metaSpec carries that script, its variables get the value 7)
+		ff := zzFlags(flags)
+		r1, e1 := e.pr.RunWithFeatureFlags(ctx, e.varsMap, zzNewStore("exact", e, AccountsMetadata{}), ff)
+		other := Parse(metaSpec)
+		ov := VariablesMap{}
+		for _, d := range other.parseResult.Value.Vars {
+			if d.Name != nil {
+				ov[d.Name.Name] = "USD 7"
+			}
+		}
+		_, _ = other.Run(ctx, ov, StaticStore{})
+		r2, e2 := e.pr.RunWithFeatureFlags(ctx, e.varsMap, zzNewStore("exact", e, AccountsMetadata{}), ff)
+		zzvrt.Note("result=" + zzErrClass(e1))
+		zzSameOutcome(zzOutcome{r1, e1}, zzOutcome{r2, e2}, "C11:independent-of-earlier-runs")
+		zzvrt.Reach("c11-history-end")
 
 	case "reentrancy":
 		ff := zzFlags(flags)
